@@ -26,6 +26,7 @@ from c12_util import LAYOUT_CODE, LAYOUTS, is_store_path, poison_returned, retur
 CONFIG = {
     "cone": ["Base/ListUtil.v", "Model/Store.v", "Proofs/StoreProofs.v", "Model/Alias.v", "Proofs/AliasSound.v", "Proofs/AliasEnumA.v",
              "Proofs/AliasEnumB.v", "Proofs/AliasEnumC.v", "Proofs/AliasEnumD.v", "Proofs/AliasProofs.v", "Properties/C12.v"],
+    "coqchk_budget": 2400,   # the vm_compute enumerations of Proofs/AliasEnum*.v take coqchk about 28 minutes
     "trusted": [
         "coq/Model/Alias.v: the per-entry-point programs are hand-written transcriptions of the Python (one instruction per "
         "aliasing-relevant statement, Python line cited); they are tied to the code by the dynamic alias-relation comparison only",
